@@ -124,8 +124,10 @@ func vHarness_C13_format() {
 		vAssert(err != nil, "a marker without argument, or an argument containing '..', is an error")
 		return
 	}
-	vAssert(err == nil, "a format with a safe prefix and good arguments is accepted")
 	if err != nil {
+		// the property does not require that every well-formed format is accepted (the
+		// implementation may refuse more, e.g. '..' assembled from several pieces)
+		vReach("refused")
 		return
 	}
 	if nmark > 0 {
